@@ -14,9 +14,10 @@ import (
 	"github.com/ProtonMail/go-crypto/openpgp"
 
 	"github.com/sassoftware/relic/v8/config"
-	"github.com/sassoftware/relic/v8/server"
 	"github.com/sassoftware/relic/v8/server/daemon"
 	"github.com/sassoftware/relic/v8/zz_verif/core"
+	"github.com/sassoftware/relic/v8/zz_verif/reflectx"
+	"github.com/sassoftware/relic/v8/zz_verif/simhook"
 	"github.com/sassoftware/relic/v8/zz_verif/world"
 )
 
@@ -132,12 +133,23 @@ func c14Shutdown(r *core.Run) {
 		must(cfg.Normalize(""))
 		defer useConfig(cfg)()
 		world.Bind(w)
-		srv, err := server.New(cfg)
+		// the daemon as relic builds it: daemon.New (server, http.Server and its
+		// shutdown hooks, listeners from socket activation - here: from the
+		// simulated network)
+		cfg.Server.ListenHTTP = "relic.sim:6363"
+		simhook.SetNetListen(func(network, addr string) (net.Listener, error) { return w.Listen(addr), nil })
+		defer simhook.SetNetListen(nil)
+		d, err := daemon.New(cfg, false)
 		if err != nil {
-			r.Notes["internal_error"] = "server.New: " + err.Error()
+			r.Notes["internal_error"] = "daemon.New: " + err.Error()
 			return
 		}
-		inner := srv.Handler()
+		hs, ok := reflectx.Field[*http.Server](d)
+		if !ok {
+			r.Notes["internal_error"] = "the daemon holds no *http.Server"
+			return
+		}
+		inner := hs.Handler
 		handler := http.HandlerFunc(func(rw http.ResponseWriter, req *http.Request) {
 			if f := req.URL.Query().Get("filename"); f != "" {
 				mu.Lock()
@@ -150,15 +162,7 @@ func c14Shutdown(r *core.Run) {
 			}
 			inner.ServeHTTP(rw, req)
 		})
-		hs := &http.Server{
-			Handler:           handler,
-			ReadHeaderTimeout: time.Second * time.Duration(cfg.Server.ReadHeaderTimeout),
-			ReadTimeout:       time.Second * time.Duration(cfg.Server.ReadTimeout),
-			WriteTimeout:      time.Second * time.Duration(cfg.Server.WriteTimeout),
-			IdleTimeout:       10 * time.Second,
-		}
-		lis := w.Listen("relic.sim:6363")
-		d := daemon.ZZNew(srv, hs, []net.Listener{lis})
+		hs.Handler = handler
 		serveDone := make(chan error, 1)
 		go func() {
 			err := d.Serve()
